@@ -74,6 +74,16 @@ func (r *Report) Check(rule, fn, construct string, pos token.Pos, ok bool, detai
 	return o
 }
 
+// Shape records a shape rule: it is evaluated only when the idiom it compares is recognised in the code;
+// an unrecognised shape is noted and never counts as a violation (DESIGN.md section 6).
+func (r *Report) Shape(rule, fn, construct string, pos token.Pos, recognised, ok bool, detail string) *Ob {
+	if !recognised {
+		r.Note("shape-unrecognised %s: %s: %s (%s) - not evaluated", rule, fn, construct, detail)
+		return nil
+	}
+	return r.Check(rule, fn, construct, pos, ok, detail)
+}
+
 // CheckHow records an obligation with separate texts for the discharged and the violated case.
 func (r *Report) CheckHow(rule, fn, construct string, pos token.Pos, ok bool, how, why string) *Ob {
 	o := r.Check(rule, fn, construct, pos, ok, why)
@@ -201,7 +211,13 @@ func (r *Report) Finish(evidencePath string) int {
 		}
 		rulesOut = append(rulesOut, map[string]interface{}{"id": id, "statement": r.Rules[id], "obligations": n, "discharged": d})
 	}
+	keys := make([]string, 0, len(r.Obs))
+	for _, o := range r.Obs {
+		keys = append(keys, o.Key()+" => "+o.Verdict)
+	}
+	sort.Strings(keys)
 	cov := map[string]interface{}{
+		"obligation_keys": keys,
 		"explanation":         r.Explanation,
 		"obligations":         len(r.Obs),
 		"discharged":          discharged,
@@ -224,6 +240,8 @@ func (r *Report) Finish(evidencePath string) int {
 		cov["functions_analysed"] = len(r.c.modFuncs)
 		cov["call_graph_nodes"] = len(r.c.CG.Nodes)
 		cov["goarch"] = r.c.GOARCH
+		cov["build_tags"] = r.c.Tags
+		cov["call_graph"] = r.c.CGKind
 	}
 	for k, v := range r.Extra {
 		cov[k] = v
